@@ -707,6 +707,19 @@ def c04_r4(ctx):
             "self._imports.extend(generate_scalar_imports(self.custom_scalars[<elem>(self._used_scalars)]))",
             "self._imports.append(generate_import_from([str_to_pascal_case(f) for f in self._fragments_used_as_mixins], self.fragments_module_name, 1))"]
     ctx.check(effs == want, key(ai, "imports"), f"result module imports are {effs}", ai.loc(), okmsg="result module imports enums, scalar helpers and mixin fragment classes")
+    # the same generator emits fragments.py (operation_definition is then a FragmentDefinitionNode): enums and scalar helpers are needed there as well
+    def at_frag(e):
+        t = norm(strip_pre(e))
+        if "isinstance(self.operation_definition, OperationDefinitionNode)" in t:
+            return (False if not t.startswith("not ") else True) if t in ("isinstance(self.operation_definition, OperationDefinitionNode)", "not isinstance(self.operation_definition, OperationDefinitionNode)") else None
+        if t in ("self._used_enums", "self._fragments_used_as_mixins", "self.fragments_module_name"):
+            return True
+        return None
+    o = [x for x in Interp(ai, at_frag, is_effect=eff).run() if any("loop body once" in t for t in x.trace) or not any("loop" in t for t in x.trace)]
+    effs_f = sorted({tuple(norm(strip_pre(e)) for e in x.effects) for x in o})
+    ctx.check(len(effs_f) == 1 and list(effs_f[0])[:2] == want[:2], key(ai, "imports for a fragment definition"),
+              f"for a fragment definition the imports added are {[list(e) for e in effs_f]}: fragments.py uses the enum / custom-scalar names (type, parse function) of its fields, "
+              "without the imports the generated package raises NameError when imported", ai.loc(), okmsg="fragment classes get the enum and scalar-helper imports too")
     init = repo.func("client_generators.result_types:ResultTypesGenerator.__init__")
     g = cfg_of(init)
     a = [n for n in g.stmts() if n.kind == "stmt" and calls_named(n.ast, "self._add_enums_scalars_fragments_imports")]
